@@ -238,6 +238,10 @@ def rule_wide_msg(ctx, crate, rule="R-WIDE-MSG"):
         ok = wsl.has_call(r"console::measure_text_width") and wsl.has_call(r"core::num::<impl usize>::saturating_sub") and any(b.locals[p]["ty"] == "u16" for p in wsl.params())
         ctx.check(ok, rule, "width-is-rest-of-line", b.name, "%s:%d" % (b.file, s.get("line", 0)), "width = terminal width - measured rest of the line (saturating)",
                   "wide_msg's width is not the columns left on the line", cfg)
+        narrowed = wsl.has_field("message", "state::ProgressState") or wsl.has_call(r"std::cmp::Ord::(min|max|clamp)", r"core::num::<impl usize>::(min|max|clamp)", r"std::cmp::(min|max)")
+        ctx.check(not narrowed, rule, "width-is-exactly-rest-of-line", b.name, "%s:%d" % (b.file, s.get("line", 0)),
+                  "the field width does not depend on the message and is not narrowed (the alignment pads to the whole rest of the line)",
+                  "wide_msg's field width depends on the message or is narrowed with min/max: a short message is no longer padded to the rest of the line on the side chosen by the alignment", cfg)
         ssl = b.slice(f["str"], at=i)
         ctx.check(ssl.has_call(r"state::TabExpandedString::expanded") and ssl.has_field("message"), rule, "shows-message", b.name, "%s:%d" % (b.file, s.get("line", 0)),
                   "wide_msg shows the expanded message", "wide_msg does not show the bar's message", cfg)
